@@ -709,7 +709,8 @@ impl<'a, RK: RadioKind> Exec<'a, RK> {
                 }
             }
         };
-        if rx_op && matches!(hm0, M::RxSingle | M::RxDuty) && waits.terminal_seen && log.fault_fired && !recovery_cmd && !dropped && matches!(res, Res::Err(_)) {
+        let armed_op = (rx_op && matches!(hm0, M::RxSingle | M::RxDuty)) || (matches!(step.op, Op::Cad) && hm0 == M::Cad) || (matches!(step.op, Op::Tx | Op::LwTx { .. }) && hm0 == M::Tx);
+        if armed_op && waits.terminal_seen && log.fault_fired && !recovery_cmd && !dropped && matches!(res, Res::Err(_)) {
             self.stats.bump("probe.reception-ended-then-transport-fault");
             if hm1 == hm0 {
                 self.violate(
